@@ -11,7 +11,7 @@ META = {
   trusted=["heap metering by a counting global allocator, time by Instant"],
   timeout=dict(quick=600, thorough=7200)),
  "C06": dict(
-  extra_modules=["C06Errors", "C06Complete", "Tie", "C10C06More"],
+  extra_modules=["C06Errors", "C06Complete", "Tie", "C10C06More", "C06Spec"],
   rule="bounded-exhaustive: all buffers up to length L (quick 5, thorough 6) over {00,01,02,03,3F,40,80,C0,C1,'a'} at every start offset, plus random message-like buffers with label runs, pointer chains, self/forward/out-of-range pointers, reserved label types and names around the 255-byte limit; each (buffer, offset) is decoded by Name::parse (hook parse_name_at), by the Lean model and by the RFC 1035 reference decoder (spec.name); non-trivial = offset inside the buffer; distinct = distinct (request, output)",
   assumptions=STD, exhaustive=False, timeout=dict(quick=600, thorough=7200)),
  "C08": dict(
@@ -23,7 +23,7 @@ META = {
   rule="exhaustive: all 65536 codes through TYPE::from/u16::from, CLASS, QTYPE, QCLASS try_from and back; every supported record kind (built and parsed) x every question type; every class x qclass; compared with the model and with the IANA registry extract; distinct = distinct (request, output)",
   assumptions=STD, exhaustive=True, timeout=dict(quick=600, thorough=600)),
  "C02": dict(
-  extra_modules=["Tie", "C05C03More"],
+  extra_modules=["Tie", "C05C03More", "C07Sites"],
   rule="packets built through the public constructors: one record of each of the 43 RDATA kinds alone in each section, then random packets (0..8 entries per section, all classes, cache-flush/unicast bits, boundary integers, binary labels, names up to 255 bytes, with/without OPT, every named opcode/rcode); build_bytes_vec compared byte for byte with the model, Packet::parse of the bytes compared with the model, and the intrinsic oracle parse(build(p)) == p on every field; distinct = distinct (request, output); the excluded point TXT-without-strings is run as the last case",
   assumptions=STD, timeout=dict(quick=600, thorough=7200)),
  "C03": dict(
@@ -69,7 +69,7 @@ META = {
   rule="packets as C02 (700 quick / 6000 thorough): both vector-returning entry points walked by an independent RFC 1035 walker (counts = entries written incl. OPT once, no trailing bytes); then every writer configuration: Vec (empty / pre-filled), Cursor<Vec> at offsets 0/2/3/7 over empty, shorter and longer pre-filled storage, Cursor<&mut [u8]> and &mut [u8] of capacities {0,1,11,12,len-1,len,len+1,len+2,len/2} (every capacity 0..len+2 for every 16th packet) and at offsets 2/3/5, plain and compressed; result class, final storage and final position compared with the model and with the bytes of build_bytes_vec* spliced in; distinct = distinct (request, output)",
   assumptions=STD, timeout=dict(quick=900, thorough=7200)),
  "C07": dict(
-  extra_modules=["Tie", "C04C07C11More"],
+  extra_modules=["Tie", "C04C07C11More", "C07Sites"],
   rule="packets as C03 incl. messages crossing 16 KiB and the sweep of a multi-label name across offset 16383/16384: build_bytes_vec_compressed compared byte for byte with the model; every name site located by an independent schema-aware walker in the harness; each pointer checked: strictly backward, target <= 16383, not into the header, expansion = the intended name (from the uncompressed output), none inside no-compress RDATA (SRV NAPTR KX RRSIG NSEC IPSECKEY SVCB HTTPS), repeated compressible names written as exactly two bytes; plus write_compressed_to at stream offsets 2 and 13 must emit the same message",
   assumptions=STD, timeout=dict(quick=600, thorough=7200)),
  "C12": dict(
@@ -81,10 +81,11 @@ META = {
   rule="for each of the 43 RDATA kinds 25 (thorough 400) records, each both built from parts and borrowed from a receive buffer: into_owned and clone compared with the original through every accessor (canonical text), ==, both serialisers and Hash; pairs differing only in TTL/cache-flush, and pairs of different records, through == / DefaultHasher / HashSet::contains; questions; names built from parts vs received; InstanceInformation built by inserting the same addresses and ports in different orders; compared with the model's into_owned / hash feeds",
   assumptions=STD + ["std Hash of slices/Vec/primitive types feeds length prefix and content; DefaultHasher is a function of the feed"], timeout=dict(quick=600, thorough=7200)),
  "C14": dict(
-  extra_modules=["TieEnv"],
+  extra_modules=["TieEnv", "C14Fits"],
   rule="datagrams of length 0..9000 (empty, 1..12 bytes, reference-encoded messages with hostile names, RDLENGTH/count perturbations, truncations) against stores holding 0..3 arbitrary records (hostile names: invalid UTF-8, 63-byte labels, dots and backslashes; half of them aimed at the datagram's question names): the responder's loop body (has_flags.unwrap_or(true), Packet::parse, build_reply, build_bytes_vec_compressed) and the discovery listener's (parse, sync and async add_response_to_resources or reply, then a cache query on the same store) run through the simple_mdns::verif hooks under catch_unwind and compared with the model's handleResponder / handleDiscovery on (none | parsed reply, cached records); oracle: no panic, every reply re-parses, async = sync; plus one live run: SimpleMdnsResponder on loopback multicast answers a query, receives 400 (thorough 4000) hostile datagrams and three short ones, two queries of 400 and 1400 questions for a registered 250-byte TXT record (replies of 100 KB and 370 KB, which no datagram carries), and must still answer (counted sockets-not-exercised when the first query gets no answer); 500 (thorough 4000) well-formed announcements and goodbyes for the watched service with TTL 0 / 1 / 2^31 / 2^32-1, flush bits and hostile instance labels go through the same pipelines; two more live runs: OneShotMdnsResolver::query_service_address with a pending query receives 250 hostile datagrams forced past its header peek (response bit, id 0, an answer count), a non-address answer and the address (it must return, and with 127.0.0.9 if it answers), and ServiceDiscovery receives 120 announcements/goodbyes with the hostile TTLs plus 150 hostile datagrams and must then still discover a plain announcement (get_known_services must not panic on a poisoned lock); the same three live runs for the tokio flavour (async_discovery) on one current-thread runtime; a 20 KB reply; RDATA of the rare types cut at every length as probe and as response; OPT option lengths at the top of the 16-bit range; stores holding NSEC values with windows out of order",
   assumptions=STD + ["threads, sockets and lock poisoning are not modelled; the live run samples them"], timeout=dict(quick=900, thorough=7200)),
  "C15": dict(
+  extra_modules=["C15Reports", "C15Multi"],
   rule="1..3 peers per history, each advertising an instance (valid single-label names, 0..4 IPv4/IPv6 addresses, 0..2 ports, 0..3 attributes with absent/empty/non-empty values, multi-byte keys and values, one key in 30 empty): InstanceInformation::into_records, a compressed response packet (sometimes carrying records of a foreign service, of the discoverer's own instance, or of the service name itself), Packet::parse, add_response_to_resources into a store initialised like ServiceDiscovery::new, get_domain_resources(cached) + from_records; the set of discovered instances compared with the model and with the advertised ones; plus escape/unescape of 2000 (thorough 20000) strings over {a . \\ e-acute space U+013B z -}",
   assumptions=STD, timeout=dict(quick=600, thorough=7200)),
 }
